@@ -389,6 +389,9 @@ def run(repo, rep, tier):
     r2 = rep.rule("R12.2", "single-path containers fill at most one child on every path", floor=6)
     r3 = rep.rule("R12.3", "(informational) position of the repository's rollback marker comment relative to the first own-state store")   # no floor: comments are not behaviour
     r4 = rep.rule("R12.4", "conversion helpers that fill relies on to reject a wrong-typed value let the conversion error escape", floor=1)
+    # a record that lacks a field must make the string quantity raise (and so be skipped): the evaluation namespace is built per call
+    rep.borrow(repo, "C17", {"R17.4": ("R12.5", "a string quantity is evaluated in a namespace built for this record alone: a record missing a field raises instead of being aggregated with the previous record's value", 2)},
+               keep=lambda f: "namespace" in (f.stmt or ""))
     validators_raise(repo, rep, r4, prims)
     for c in prims:
         f = repo.own_method(c, "fill")
